@@ -237,15 +237,17 @@ struct FnGen<'a> {
     n_funcs: usize,
     me: usize,
     blocks: Vec<Block>,
-    /// this function never overwrites the return register outside calls, so return values of extern
-    /// calls reach several return sites (the CWE252 / CWE476 "lost return value" shapes)
+    /// "lost return value" mode: the function never overwrites RAX/RBX outside calls, saves the return value of
+    /// every extern call in RBX and returns the constant 0 at every return site, so unchecked return values of
+    /// extern calls reach several return sites without being returned (the CWE252 / CWE476 shapes)
     keep_rax: bool,
     /// instructions to be emitted at the start of the NEXT block (uses of values computed in this one)
     carry: Vec<Vec<Op>>,
 }
 
 fn writes_rax(ins: &[Op]) -> bool {
-    ins.iter().any(|o| matches!(o.lhs["name"].as_str(), Some("RAX") | Some("EAX") | Some("AX") | Some("AL") | Some("AH")))
+    ins.iter().any(|o| matches!(o.lhs["name"].as_str(), Some("RAX") | Some("EAX") | Some("AX") | Some("AL") | Some("AH")
+        | Some("RBX") | Some("EBX") | Some("BX") | Some("BL") | Some("BH")))
 }
 
 /// symbols whose return value must be used according to the shipped configuration (CWE252)
@@ -529,6 +531,9 @@ pub fn gen_funcs(rng: &mut Rng, knobs: &Knobs) -> ProjectSpec {
                     instrs.extend(setup);
                     instrs.push(g.call_seq(0)); // return address patched at layout
                     let ret = if s.no_return && g.rng.chance(1, 2) { None } else { Some(next) };
+                    if g.keep_rax && s.ret.is_some() {
+                        g.carry.push(vec![copy(reg("RBX", 8), reg("RAX", 8))]);
+                    }
                     Term::CallExt { sym, ret }
                 }
                 3 if g.n_funcs > 2 => {
@@ -562,11 +567,15 @@ pub fn gen_funcs(rng: &mut Rng, knobs: &Knobs) -> ProjectSpec {
                     let (ops, flag) = g.cmp_flag();
                     instrs.push(ops);
                     g.blocks.push(Block { instrs, term: Term::Cond { flag, target: b + 2, fall: b + 1 } });
-                    let ret_instrs = vec![
+                    let mut ret_instrs = std::mem::take(&mut g.carry);
+                    if g.keep_rax {
+                        ret_instrs.push(vec![copy(reg("RAX", 8), cst(0, 8))]);
+                    }
+                    ret_instrs.extend(vec![
                         vec![copy(reg("RSP", 8), reg("RBP", 8))],
                         vec![load(reg("RBP", 8), reg("RSP", 8)), bin(reg("RSP", 8), "INT_ADD", reg("RSP", 8), cst(8, 8))],
                         vec![load(reg("RIP", 8), reg("RSP", 8)), bin(reg("RSP", 8), "INT_ADD", reg("RSP", 8), cst(8, 8))],
-                    ];
+                    ]);
                     g.blocks.push(Block { instrs: ret_instrs, term: Term::Ret });
                     b += 2;
                     continue;
@@ -577,11 +586,15 @@ pub fn gen_funcs(rng: &mut Rng, knobs: &Knobs) -> ProjectSpec {
             b += 1;
         }
         // epilogue
-        let epi_instrs = vec![
+        let mut epi_instrs = std::mem::take(&mut g.carry);
+        if g.keep_rax {
+            epi_instrs.push(vec![copy(reg("RAX", 8), cst(0, 8))]);
+        }
+        epi_instrs.extend(vec![
             vec![copy(reg("RSP", 8), reg("RBP", 8))],
             vec![load(reg("RBP", 8), reg("RSP", 8)), bin(reg("RSP", 8), "INT_ADD", reg("RSP", 8), cst(8, 8))],
             vec![load(reg("RIP", 8), reg("RSP", 8)), bin(reg("RSP", 8), "INT_ADD", reg("RSP", 8), cst(8, 8))],
-        ];
+        ]);
         g.blocks.push(Block { instrs: epi_instrs, term: Term::Ret });
         let blocks = g.blocks;
         funcs.push(Func { name: if me == 0 { "main".to_string() } else { format!("fn_{}", me) }, blocks });
